@@ -96,7 +96,7 @@ func H10_seq() {
 	saved := ValidateDocFields
 	defer func() { ValidateDocFields = saved }()
 	buildB := func(tag string) {
-		docs, sp := vGenBatch(gCfg{prefix: "b" + tag, idBase: "b", nDocs: vChoice("bDocs", 3), wide: -1,
+		docs, sp := vGenBatch(gCfg{prefix: "b" + tag, idBase: "b", nDocs: vChoice("bDocs", 1+vParam("bMax", 2)), wide: -1, noFx: true,
 			fields: []gField{
 				{name: "f", terms: []string{"a"}, tv: true, maxLocs: 1, store: true},
 				{name: "g", terms: []string{"c"}},
@@ -123,7 +123,7 @@ func H10_seq() {
 		buildB("1-")
 	}
 	// A: larger, with doc values on the same field names, extra fields, optionally synonyms
-	aDocs, _ := vGenBatch(gCfg{prefix: "a", idBase: "a", nDocs: 1 + vChoice("aDocs", 2), wide: -1, idDV: true,
+	aDocs, _ := vGenBatch(gCfg{prefix: "a", idBase: "a", nDocs: 1 + vChoice("aDocs", vParam("aMax", 2)), wide: -1, idDV: true, noFx: true,
 		fields: []gField{
 			{name: "f", terms: []string{"a", "b"}, tv: true, maxLocs: 1, dv: true, store: true, always: true},
 			{name: "g", terms: []string{"c"}, dv: true, always: true, allTerm: true},
